@@ -145,7 +145,8 @@ def pipeline_diag(work, driver, cases, limit=400, tag="pipe"):
     hook on and every stage snapshot is validated by PipelineTrace.tla against the phase contracts of Pipeline.tla.
     Returns a model-style dict for the evidence."""
     import subprocess
-    sub = [dict(c, stages=1, reps=0, case=i + 1) for i, c in enumerate(cases[:limit]) if c.get("p5") != "splines"]
+    # every second case with a recording monitor, so that the reported crossing number can be compared with the recorded order
+    sub = [dict(c, stages=1, reps=0, case=i + 1, mon=1 if i % 2 == 0 else c.get("mon", 0)) for i, c in enumerate(cases[:limit]) if c.get("p5") != "splines"]
     if not sub:
         return None
     d = work.sub(tag)
@@ -181,7 +182,7 @@ def pipeline_diag(work, driver, cases, limit=400, tag="pipe"):
         return None
     if drift:
         log("[pipe] DRIFT (diagnostic, not a verdict): %s" % json.dumps(drift, sort_keys=True))
-    return dict(name="PipelineTrace.tla: %d stage snapshots of %d calls against the phase contracts of Pipeline.tla (layer 2) and %d phase-1 / network-simplex results predicted exactly by CycleBreakOps / NetSimplexOps / PositionOps (layer 3), %d drifting" % (stats["stages"], stats["calls"], stats["l3predictions"], stats["drift"]),
+    return dict(name="PipelineTrace.tla: %d stage snapshots of %d calls against the phase contracts of Pipeline.tla (layer 2) and %d phase-1 / layering / helper-node / coordinate / route / crossing-count / collect results predicted exactly by CycleBreakOps, NetSimplexOps, BreakAll, PositionOps, RouteOps, OrderCrossings, Collect (layer 3), %d drifting" % (stats["stages"], stats["calls"], stats["l3predictions"], stats["drift"]),
                 generated=int(m.group(1)), distinct=int(m.group(2)), wall=time.time() - t0, ok=True, drift=drift)
 
 
